@@ -73,7 +73,8 @@ fn simplifying<T, OF, LM>(
     label: &str,
     helpers: bool,
     gen_pt: &dyn Fn(&mut Tape) -> T,
-    same: &dyn Fn(&T, &T) -> bool,
+    same: &dyn Fn(&T, &T, f64) -> bool,
+    cond: &dyn Fn(&CT, &[T]) -> Option<f64>,
 ) -> CaseResult
 where
     T: DiffDataType + Num + Bounded + PartialEq + 'static,
@@ -232,6 +233,8 @@ where
             if !ok {
                 continue;
             }
+            // conditioning of the value (f64 only): ill-conditioned points widen the tolerance
+            let Some(sens) = cond(&e.tree, &full) else { continue };
             judged += 1;
             let vals: Vec<T> = used.iter().map(|i| full[*i].clone()).collect();
             let flat = guard(|| -> Result<(T, T), String> {
@@ -244,7 +247,7 @@ where
                 Ok(Err(er)) => return Err(fail("C10/simplifying/eval-error", format!("evaluation after {:?} fails: {er}", history.last()), describe(&history))),
                 Ok(Ok((dv, fv))) => {
                     for (form, v) in [("deep", &dv), ("flattened", &fv)] {
-                        if !same(v, &r) {
+                        if !same(v, &r, sens) {
                             return Err(fail(
                                 "C10/simplifying/value",
                                 format!("after {:?}: {form} value {v:?} at {vals:?}, the operator applied to the operands' values gives {r:?} (`{}`)", history.last(), e.d.unparse()),
@@ -278,7 +281,15 @@ fn simplifying_f64(tape: &[u32], st: &mut Stats) -> CaseResult {
         "f64",
         true,
         &|t: &mut Tape| [0.5, 2.0, -1.5, 3.0, 0.25, -0.75, 1.25, 4.0][t.choose(8)],
-        &|a: &f64, b: &f64| close(*a, *b, 1e-9),
+        &|a: &f64, b: &f64, sens: f64| close_cond(*a, *b, 1e-9, sens),
+        &|tree: &CT, full: &[f64]| {
+            let f = |p: &[f64]| {
+                let mut o = true;
+                let r: f64 = eval_ct(tree, p, &mut o);
+                o.then_some(r)
+            };
+            sensitivity(&f, full)
+        },
     )
 }
 fn simplifying_exact(tape: &[u32], st: &mut Stats) -> CaseResult {
@@ -291,7 +302,8 @@ fn simplifying_exact(tape: &[u32], st: &mut Stats) -> CaseResult {
             let (n, d) = *t.pick(&Q_POINTS);
             Q::ratio(n, d)
         },
-        &|a: &Q, b: &Q| a == b,
+        &|a: &Q, b: &Q, _sens: f64| a == b,
+        &|_tree: &CT, _full: &[Q]| Some(0.0),
     )
 }
 
